@@ -181,6 +181,15 @@ def run(tier, cases=None):
         ck.setc("states", r.states); ck.setc("transitions", r.states)
     else:
         ck.setc("states", len(cases)); ck.setc("transitions", len(cases))
+    if cases_given is None:
+        # parametric families (families.py, c01.py): single-function modules with expected observations from MIRRun.tla
+        import c01, families
+        k = 1 if tier == "thorough" else 6
+        fam, rf = progs.run_family(families.property_cases() + families.clone_jmpi_cases() + c01.island_cases()[::k] + c01.loop_cases()[::k]
+                                   + families.fpcmp_cases()[::k] + families.andext_cases()[::k] + families.spill_index_cases()[::k]
+                                   + c01.memwin_cases(40 * k, vlib.seed() % 40) + c01.gvar_cases()[::k])
+        cases = cases + fam
+        ck.setc("family_cases", len(fam))
     m2c, drv = build_m2c()
     st = collections.Counter(c["status"] for c in cases)
     todo = [(i, c) for i, c in enumerate(cases) if c["status"] == "done"]
